@@ -433,8 +433,13 @@ impl World {
         let _ = std::fs::create_dir_all(&dir);
         let normal = format!("{}/out.png", dir);
         let _ = std::fs::remove_file(&normal);
+        if let IoFault::Overwrite = fault {
+            // what an earlier, larger export would have left there
+            let _ = std::fs::write(&normal, vec![0x5au8; 70_000]);
+        }
         let path = match fault {
-            IoFault::None | IoFault::FileLimit(_) => normal.clone(),
+            IoFault::None | IoFault::FileLimit(_) | IoFault::Overwrite => normal.clone(),
+            IoFault::DevNull => "/dev/null".to_string(),
             IoFault::DevFull => "/dev/full".to_string(),
             IoFault::NoDir => format!("{}/missing-dir/out.png", dir),
             IoFault::IsDir => dir.clone(),
@@ -458,7 +463,7 @@ impl World {
             Err(p) => std::panic::resume_unwind(p),
         };
         let file = match fault {
-            IoFault::None | IoFault::FileLimit(_) => std::fs::read(&normal).ok(),
+            IoFault::None | IoFault::FileLimit(_) | IoFault::Overwrite => std::fs::read(&normal).ok(),
             _ => None,
         };
         let _ = std::fs::remove_file(&normal);
